@@ -194,8 +194,8 @@ structure DataOK (ty : TyInfo) (s : DataSlab) : Prop where
 
 /-! ### reading the two head bytes -/
 
-theorem decodeSlab_cons2 (id : SlabID) (b0 b1 : Nat) (tail : Bytes) :
-    decodeSlab id (b0 :: b1 :: tail) =
+theorem decodeSlabFlat_cons2 (id : SlabID) (b0 b1 : Nat) (tail : Bytes) :
+    decodeSlabFlat id (b0 :: b1 :: tail) =
       match (⟨b0, b1⟩ : SlabHead).slabType with
       | .array =>
         match (⟨b0, b1⟩ : SlabHead).arrayType with
@@ -207,7 +207,7 @@ theorem decodeSlab_cons2 (id : SlabID) (b0 b1 : Nat) (tail : Bytes) :
         let (e, _) ← decodeElem (Dec.new tail)
         pure (.storable id e)
       | .undefined => DM.fail := by
-  unfold decodeSlab
+  unfold decodeSlabFlat
   have h2 : ¬ (b0 :: b1 :: tail).length < versionAndFlagSize := by simp [versionAndFlagSize]
   rw [if_neg h2]
   unfold sliceTo sliceFrom
@@ -247,8 +247,8 @@ theorem newArrayMetaDataSlabFromData_cons2 (id : SlabID) (b0 b1 : Nat) (tail : B
     List.drop_succ_cons, List.drop_zero]
 
 /-- `DecodeSlab` on the encoding of a data slab followed by `extra` bytes -/
-theorem decodeSlab_encodeDataSlab (ty : TyInfo) (s : DataSlab) (ok : DataOK ty s) (extra : Bytes) (n : Nat) :
-    decodeSlab s.hdr.id (encodeDataSlab ty s ++ extra) n =
+theorem decodeSlabFlat_encodeDataSlab (ty : TyInfo) (s : DataSlab) (ok : DataOK ty s) (extra : Bytes) (n : Nat) :
+    decodeSlabFlat s.hdr.id (encodeDataSlab ty s ++ extra) n =
       if extra ≠ [] then .error .decoding (n + s.elems.length)
       else .ok (.data (if s.root then some ty else none) s) (n + s.elems.length) := by
   obtain ⟨hdr, next, elems, root, inlined⟩ := s
@@ -298,7 +298,7 @@ theorem decodeSlab_encodeDataSlab (ty : TyInfo) (s : DataSlab) (ok : DataOK ty s
       rw [decodeDataContent_enc _ _ _ _ _ elems hv hn hsz32, ← hsize, htyo]
       simp
   simp only [List.cons_append, List.nil_append]
-  rw [decodeSlab_cons2, hf1]
+  rw [decodeSlabFlat_cons2, hf1]
   simp only [hf2]
   rw [newArrayDataSlabFromData_cons2, hf2, hf3]
   simp only [ne_eq, not_true_eq_false, ↓reduceIte, show ¬ ((1 : Nat) = 0) by decide]
@@ -363,13 +363,13 @@ theorem decodeElem_enc_new (e : Elem) (hv : validElem e) (extra : Bytes) :
 
 /-- `DecodeSlab` on the encoding of a large-value slab; trailing bytes are NOT rejected
     (decode.go has no end-of-data check in the `slabStorable` branch). -/
-theorem decodeSlab_encodeStorableSlab (id : SlabID) (e : Elem) (hv : validElem e) (extra : Bytes) (n : Nat) :
-    decodeSlab id (encodeStorableSlab e ++ extra) n = .ok (.storable id e) n := by
+theorem decodeSlabFlat_encodeStorableSlab (id : SlabID) (e : Elem) (hv : validElem e) (extra : Bytes) (n : Nat) :
+    decodeSlabFlat id (encodeStorableSlab e ++ extra) n = .ok (.storable id e) n := by
   unfold encodeStorableSlab
   have hf := head_storable_facts (elemIsRef e)
   simp only at hf
   simp only [List.cons_append, List.nil_append]
-  rw [decodeSlab_cons2, hf.1]
+  rw [decodeSlabFlat_cons2, hf.1]
   simp only
   rw [decodeElem_enc_new e hv extra]
   rfl
@@ -463,8 +463,8 @@ structure MetaOK (ty : TyInfo) (m : MetaSlab Unit) : Prop where
   ty : m.root = true → validTy ty
 
 /-- `DecodeSlab` on the encoding of an index slab followed by `extra` bytes -/
-theorem decodeSlab_encodeMetaSlab (ty : TyInfo) (m : MetaSlab Unit) (ok : MetaOK ty m) (extra : Bytes) (n : Nat) :
-    decodeSlab m.hdr.id (encodeMetaSlab ty m ++ extra) n =
+theorem decodeSlabFlat_encodeMetaSlab (ty : TyInfo) (m : MetaSlab Unit) (ok : MetaOK ty m) (extra : Bytes) (n : Nat) :
+    decodeSlabFlat m.hdr.id (encodeMetaSlab ty m ++ extra) n =
       if extra ≠ [] then .error .decoding n
       else .ok (.index (if m.root then some ty else none) m) (n + m.childHdrs.length + m.childHdrs.length) := by
   obtain ⟨hdr, childHdrs, countSum, children, root⟩ := m
@@ -543,7 +543,7 @@ theorem decodeSlab_encodeMetaSlab (ty : TyInfo) (m : MetaSlab Unit) (ok : MetaOK
       rw [if_pos hne, if_pos hex]
       rfl
   simp only [List.cons_append, List.nil_append]
-  rw [decodeSlab_cons2, hf1]
+  rw [decodeSlabFlat_cons2, hf1]
   simp only [hf2]
   rw [newArrayMetaDataSlabFromData_cons2, hf2, hf3]
   simp only [ne_eq, not_true_eq_false, ↓reduceIte, show ¬ ((1 : Nat) = 0) by decide]
@@ -563,21 +563,67 @@ theorem decodeSlab_encodeMetaSlab (ty : TyInfo) (m : MetaSlab Unit) (ok : MetaOK
     simp only [List.append_assoc] at this
     exact this
 
-/-! ### all modelled slab kinds at once -/
+/-! ### from the first part of the decoder to `decodeSlab` -/
 
-/-- What the encoder relies on, per slab kind; the optional type info is present exactly for roots. -/
+theorem decodeSlab_of_flat_ok {id : SlabID} {data : Bytes} {n k : Nat} {s : Slab}
+    (h : decodeSlabFlat id data n = .ok s k) : decodeSlab id data n = .ok s k := by
+  unfold decodeSlab; rw [h]
+
+theorem decodeSlab_of_flat_err {id : SlabID} {data : Bytes} {n k : Nat}
+    (h : decodeSlabFlat id data n = .error .decoding k) : decodeSlab id data n = .error .decoding k := by
+  unfold decodeSlab; rw [h]
+
+theorem decodeSlab_of_flat_unsupported {id : SlabID} {data : Bytes} {n k : Nat}
+    (h : decodeSlabFlat id data n = .error .unsupported k) : decodeSlab id data n = decodeSlabGen id data n := by
+  unfold decodeSlab; rw [h]
+
+theorem decodeSlab_encodeDataSlab (ty : TyInfo) (s : DataSlab) (ok : DataOK ty s) (extra : Bytes) (n : Nat) :
+    decodeSlab s.hdr.id (encodeDataSlab ty s ++ extra) n =
+      if extra ≠ [] then .error .decoding (n + s.elems.length)
+      else .ok (.data (if s.root then some ty else none) s) (n + s.elems.length) := by
+  have h := decodeSlabFlat_encodeDataSlab ty s ok extra n
+  by_cases hex : extra ≠ []
+  · rw [if_pos hex] at h ⊢; exact decodeSlab_of_flat_err h
+  · rw [if_neg hex] at h ⊢; exact decodeSlab_of_flat_ok h
+
+theorem decodeSlab_encodeStorableSlab (id : SlabID) (e : Elem) (hv : validElem e) (extra : Bytes) (n : Nat) :
+    decodeSlab id (encodeStorableSlab e ++ extra) n = .ok (.storable id e) n :=
+  decodeSlab_of_flat_ok (decodeSlabFlat_encodeStorableSlab id e hv extra n)
+
+theorem decodeSlab_encodeMetaSlab (ty : TyInfo) (m : MetaSlab Unit) (ok : MetaOK ty m) (extra : Bytes) (n : Nat) :
+    decodeSlab m.hdr.id (encodeMetaSlab ty m ++ extra) n =
+      if extra ≠ [] then .error .decoding n
+      else .ok (.index (if m.root then some ty else none) m) (n + m.childHdrs.length + m.childHdrs.length) := by
+  have h := decodeSlabFlat_encodeMetaSlab ty m ok extra n
+  by_cases hex : extra ≠ []
+  · rw [if_pos hex] at h ⊢; exact decodeSlab_of_flat_err h
+  · rw [if_neg hex] at h ⊢; exact decodeSlab_of_flat_ok h
+
+/-! ### the slab kinds of the first part at once -/
+
+/-- What the encoder relies on, per slab kind of the first part (array data / index slabs and
+    large-value slabs whose elements are plain values and slab references); the optional type info
+    is present exactly for roots.  The kinds of the second part (`adata`, `mdata`, `mindex`,
+    `storableG`) have their own predicates and theorems (`AtreeProofs/Codec/MapRoundTrip.lean` …):
+    their length law has further terms (the inlined-extra-data section, the compact-map saving), so
+    they are not instances of the statements phrased with `SlabOK`. -/
 def SlabOK : Slab → Prop
   | .data ty s => DataOK (ty.getD default) s ∧ ty.isSome = s.root
   | .index ty m => MetaOK (ty.getD default) m ∧ ty.isSome = m.root
   | .storable _ e => validElem e
+  | .adata _ => False
+  | .mdata _ => False
+  | .mindex _ => False
+  | .storableG _ _ => False
 
-/-- number of slice elements the decoder allocates for a slab -/
+/-- number of slice elements the decoder allocates for a slab of the first part -/
 def Slab.decodeAllocs : Slab → Nat
   | .data _ s => s.elems.length
   | .index _ m => m.childHdrs.length + m.childHdrs.length
   | .storable _ _ => 0
+  | _ => 0
 
-/-- `DecodeSlab (EncodeSlab s) = s` for every modelled slab kind -/
+/-- `DecodeSlab (EncodeSlab s) = s` for every slab kind of the first part -/
 theorem decodeSlab_encodeSlab (s : Slab) (ok : SlabOK s) (n : Nat) :
     decodeSlab s.id (encodeSlab s) n = .ok s (n + s.decodeAllocs) := by
   cases s with
@@ -604,5 +650,9 @@ theorem decodeSlab_encodeSlab (s : Slab) (ok : SlabOK s) (n : Nat) :
     simp only [List.append_nil] at this
     simp only [Slab.id, encodeSlab, Slab.decodeAllocs, Nat.add_zero]
     exact this
+  | adata _ => exact ok.elim
+  | mdata _ => exact ok.elim
+  | mindex _ => exact ok.elim
+  | storableG _ _ => exact ok.elim
 
 end Atree.Codec
